@@ -198,6 +198,10 @@ type c08Node struct {
 	lastRet   time.Duration
 	anyErr    bool
 	aborted   bool
+	// the call was ended by the cancellation of the context the submitter handed it while the
+	// scenario (and the driver's own context) was still live: the submitter tore the delivery down
+	ctxAborted bool
+	abortAt    time.Duration
 	verAsked  int
 	verOK     int
 }
@@ -350,6 +354,7 @@ func (n *c08Node) submit(ctx context.Context, elems []any) error {
 		n.onEnter()
 	}
 
+	byCtx := false
 	wait := func(d time.Duration) bool {
 		tm := time.NewTimer(d)
 		defer tm.Stop()
@@ -359,6 +364,7 @@ func (n *c08Node) submit(ctx context.Context, elems []any) error {
 		case <-n.closed:
 			return false
 		case <-ctx.Done():
+			byCtx = true
 			return false
 		}
 	}
@@ -372,6 +378,7 @@ func (n *c08Node) submit(ctx context.Context, elems []any) error {
 		case <-n.closed:
 			live = false
 		case <-ctx.Done():
+			byCtx = true
 			live = false
 		}
 		if n.spec.Reason != "none" && n.spec.Reason != "" {
@@ -406,6 +413,17 @@ func (n *c08Node) submit(ctx context.Context, elems []any) error {
 	if !live {
 		// The scenario is over (or the caller gave up): not a reply of the scripted node.
 		n.aborted = true
+		if byCtx {
+			select {
+			case <-n.closed:
+			default:
+				if !n.ctxAborted {
+					n.ctxAborted = true
+					n.abortAt = time.Since(n.t0)
+				}
+				return ctx.Err()
+			}
+		}
 		return errors.New("c08: scenario is over")
 	}
 	n.returned++
@@ -905,12 +923,14 @@ func (h *c08History) observeCall(ctx context.Context, ci int, attempt int) ([]ve
 		anyErr   bool
 		verAsked int
 		verOK    int
+		ctxAbort bool
+		abortAt  time.Duration
 	}
 	snaps := make([]snap, len(raw))
 	for i, n := range raw {
 		n.mu.Lock()
 		s := snap{called: n.entered > 0, first: n.firstCall, complete: n.entered > 0 && n.returned == n.entered && !n.aborted,
-			last: n.lastRet, anyErr: n.anyErr, verAsked: n.verAsked, verOK: n.verOK}
+			last: n.lastRet, anyErr: n.anyErr, verAsked: n.verAsked, verOK: n.verOK, ctxAbort: n.ctxAborted, abortAt: n.abortAt}
 		for _, c := range n.chunks {
 			s.chunks = append(s.chunks, append([]int{}, c...))
 		}
@@ -946,7 +966,12 @@ func (h *c08History) observeCall(ctx context.Context, ci int, attempt int) ([]ve
 		evs = append(evs, c08Event{at: s.first, rank: 0, ev: verifsupport.Ev{
 			"sc": sc.Sc, "ev": "Call", "call": ci + 1, "node": i + 1, "chunks": s.chunks, "at": c08ClassCall(s.first, noisy), "us": s.first.Microseconds(),
 			"verAsked": s.verAsked, "verOK": s.verOK}})
-		if s.complete {
+		if s.ctxAbort {
+			// the submitter cancelled the context of a node call it had made: no action of the property explains it
+			// within the time-out (DeliveredToEach)
+			evs = append(evs, c08Event{at: s.abortAt, rank: 1, ev: verifsupport.Ev{
+				"sc": sc.Sc, "ev": "Complete", "call": ci + 1, "node": i + 1, "reply": "aborted", "at": c08ClassT(s.abortAt, noisy), "us": s.abortAt.Microseconds()}})
+		} else if s.complete {
 			reply := "accept"
 			if s.anyErr {
 				reply = "error"
